@@ -30,7 +30,7 @@ import (
 )
 
 type c14sSet struct {
-	Path    []rsSeg `json:"path"` // first segment is an AS_SEQUENCE
+	Path    []rsSeg `json:"path"`   // first segment is an AS_SEQUENCE
 	AggAS   uint32  `json:"agg_as"` // 0 = no AGGREGATOR
 	Count   int     `json:"count"`  // number of prefixes carrying this attribute set
 	Variant int     `json:"variant"`
